@@ -140,6 +140,7 @@ struct OrthoGrid {
     // optional Hanan restriction: vertical moves only on x-lines in okX, horizontal moves only on y-lines in okY
     // (coordinates as given; empty = every integer line allowed)
     std::vector<int> okX, okY;
+    bool noReverse = false;   // forbid in-place U-turns (a real route cannot double back on itself)
     OrthoGrid(int G, const std::vector<R> &rs) : G(G), rs(rs) {}
     bool lineOk(const std::vector<int> &ok, int c) const { return ok.empty() || std::find(ok.begin(), ok.end(), c) != ok.end(); }
     // unit step (x,y)->(x+1,y) is blocked iff its open segment lies in the open interior of a rectangle
@@ -164,6 +165,7 @@ struct OrthoGrid {
                 if (nx < -M || ny < -M || nx > G + M || ny > G + M) continue;
                 bool b = nd == 0 ? blockedH(x, y) : nd == 2 ? blockedH(nx, y) : nd == 1 ? blockedV(x, y) : blockedV(x, ny);
                 if (b) continue;
+                if (noReverse && dir != 4 && (dir + 2) % 4 == nd) continue;
                 if ((nd == 0 || nd == 2) ? !lineOk(okY, y) : !lineOk(okX, x)) continue;
                 double c = q.first + 1;
                 if (dir != 4 && dir != nd) c += ((dir + 2) % 4 == nd) ? 2 * pen : pen;
